@@ -237,3 +237,51 @@ Definition check_case (c : list zitem * Z * zitem * zop * res obs) : bool :=
   | Raise a, Raise b => Nat.eqb a b
   | _, _ => false
   end.
+
+(* ------------------------------------------------------------------ *)
+(* small-scope exhaustive stream: for one item list and data key, ALL queries
+   over two keys (1, 2): each key absent from the query / value H 1 / value
+   H 1000000 / a value no item carries; include and exclude any subset of
+   the keys.  The implementation's answers come packed 5 bits per query:
+   the set of selected original positions (items are identified by their data
+   object U i), 16 = something else wrong (order, stamps, data key, globals),
+   17 = exception. *)
+Definition exh_vals : list (option pv) := [None; Some (H 1); Some (H 1000000); Some (H 1000001)].
+Definition exh_q (ka kb : option pv) : list (Z * pv) :=
+  (match ka with Some v => [(1%Z, v)] | None => [] end)
+  ++ (match kb with Some v => [(2%Z, v)] | None => [] end).
+Definition exh_subsets : list (list Z) := [[]; [1%Z]; [2%Z]; [1%Z; 2%Z]].
+Definition exh_queries : list (list Z * list Z * list (Z * pv)) :=
+  flat_map (fun ka => flat_map (fun kb => flat_map (fun incl =>
+    map (fun excl => (incl, excl, exh_q ka kb)) exh_subsets) exh_subsets) exh_vals) exh_vals.
+
+Fixpoint increasing (prev : Z) (l : list Z) : bool :=
+  match l with [] => true | x :: r => Z.ltb prev x && increasing x r end.
+
+Definition exh_globals : zitem := [(5%Z, H 42)].
+
+Definition exh_mask (dk : Z) (b : zbrowser) : Z :=
+  let ids := map (fun it => match get Z.eqb dk it with Some (U i) => i | _ => (-1)%Z end) (content b) in
+  let stamps_ok :=
+    forallb (fun p => match get Z.eqb 0%Z (snd p) with
+                      | Some (H j) => Z.eqb j (Z.of_nat (fst p))
+                      | _ => false
+                      end) (combine (seq 0 (length (content b))) (content b)) in
+  if stamps_ok && increasing (-1)%Z ids && Z.eqb (data_key b) dk && zitem_eqb (globals b) exh_globals
+  then fold_right (fun i a => (Z.shiftl 1 i + a)%Z) 0%Z ids
+  else 16%Z.
+
+Definition check_exh (c : list zitem * Z * Z) : bool :=
+  let '(items, dk, packed) := c in
+  match zmake items dk exh_globals with
+  | Raise _ => false
+  | Ok b =>
+      forallb (fun p =>
+                 let '(k, (incl, excl, q)) := p in
+                 let m := match filter_by Z.eqb pv_eqb pv_hashable 0%Z zpos b incl excl q with
+                          | Ok b' => exh_mask dk b'
+                          | Raise _ => 17%Z
+                          end in
+                 Z.eqb m (Z.land (Z.shiftr packed (5 * Z.of_nat k)) 31))
+              (combine (seq 0 (length exh_queries)) exh_queries)
+  end.
